@@ -179,7 +179,7 @@ def connected(cells):
 
 def pair(rng):
     mode = rng.choice(['random', 'random', 'nested', 'share_edge', 'share_corner', 'equal', 'disjoint', 'cross', 'reflex_corner',
-                       'in_hole', 'over_hole', 'under_hole', 'under_hole', 'b_holed', 'b_holed'])
+                       'in_hole', 'in_hole', 'over_hole', 'under_hole', 'under_hole', 'b_holed', 'b_holed', 'b_holed', 'corner_nested', 'corner_nested'])
     if mode == 'b_holed':
         # the second operand carries the holes (its own plane frame starts at another vertex than the first operand's)
         A = G.rect_cells(0, 0, rng.randint(6, 9), rng.randint(6, 9))
@@ -197,6 +197,14 @@ def pair(rng):
         A = G.rect_cells(0, 0, 9, 9); x, y = rng.randint(1, 4), rng.randint(1, 4)
         B = G.rect_cells(x, y, x + rng.randint(1, 4), y + rng.randint(1, 4))
         return mode, Shape(rng, A), Shape(rng, B)
+    if mode == 'corner_nested':
+        # B sits in a corner of A: two of its edges run along two edges of A and end at the same corner
+        wa, ha = rng.randint(5, 9), rng.randint(5, 9); k = rng.randint(1, 4); l = rng.randint(1, 4)
+        x0 = rng.choice([0, wa - k]); y0 = rng.choice([0, ha - l])
+        ca_, cb_ = G.rect_cells(0, 0, wa, ha), G.rect_cells(x0, y0, x0 + k, y0 + l)
+        if rng.random() < 0.5:
+            return mode, Shape(rng, cb_), Shape(rng, ca_)
+        return mode, Shape(rng, ca_), Shape(rng, cb_)
     if mode == 'share_edge':
         w = rng.randint(2, 5)
         A = G.rect_cells(0, 0, w, 4); B = G.rect_cells(w, rng.randint(-2, 1), w + rng.randint(1, 4), 4 + rng.randint(-2, 3))
@@ -254,7 +262,7 @@ def fam_lattice(ctx, rng):
     frame = G.rational_frame(rng); origin = G.rpt3(rng, 20)
     fa, fb = sa.face(frame, origin), sb.face(frame, origin)
     A, B = sa.cells, sb.cells
-    op = rng.choice(['union', 'intersection', 'difference', 'split', 'union_all'] + (['difference'] * 4 if mode == 'under_hole' else []))
+    op = rng.choice(['union', 'intersection', 'difference', 'split', 'union_all'] + (['difference'] * 4 if mode == 'under_hole' else []) + (['intersection'] * 3 if mode in ('in_hole', 'over_hole') else []))
     desc = {'op': op, 'relation': mode, 'a': sa.desc(), 'b': sb.desc(), 'frame': frame, 'origin': origin}
     box = box_of(sa.filled, sb.filled)
     holes = bool(sa.holes or sb.holes)
@@ -705,7 +713,7 @@ def fam_general(ctx, rng):
         ctx.violation(kind + ':area', 'area(A u B) %r + area(A n B) %r != %r + %r' % (tot, ai, float(area_a), float(X.area(qb))), desc)
 
 
-FAMILIES = [(fam_lattice, 160), (fam_split, 80), (fam_split_finite, 40), (fam_through_holes, 30), (fam_general, 60)]
+FAMILIES = [(fam_lattice, 320), (fam_split, 80), (fam_split_finite, 40), (fam_through_holes, 30), (fam_general, 60)]
 
 
 def explore(ctx):
